@@ -118,5 +118,34 @@ theorem LInv.slaCore {s : St} (hs : LInv s) (e0 : Nat) (p : Pt) (d : Nat) (b_0 :
     · simp at h
     · omega
 
+set_option maxHeartbeats 4000000 in
+theorem LInv.slaCore_vb {s : St} (hs : LInv s) (hvb : s.VBound) (e0 : Nat) (p : Pt) (d : Nat) (b_0 : e0 < s.nE)
+    (hnF : s.nF = 1) (hend : s.nxt e0 = s.rv e0) :
+    (St.slaCore s e0 (s.rv e0) (s.org (s.rv e0)) (s.fc e0) p d).VBound := by
+  have ev0 := hs.even
+  have E0 := hs.edge e0 b_0
+  have hfc : s.fc e0 = 0 := by have := E0.2.2.2.1; omega
+  have b_1 := hs.rv_lt b_0
+  have E1 := hs.edge _ b_1
+  have r0 := hs.rv_rv b_0
+  have rne := hs.rv_ne b_0
+  have a5 : s.prv (s.rv e0) = e0 := by have := E0.2.2.2.2.2.1; rw [hend] at this; exact this
+  have f1 : s.fc (s.rv e0) = 0 := by
+    have := E0.2.2.2.2.2.2.2.1; rw [hend, hfc] at this; exact this
+  generalize hrv : s.rv e0 = rv0 at *
+  have d_0_1 : e0 ≠ rv0 := Ne.symm rne
+  have n_0 : ∀ k, s.nE + k ≠ e0 := by intro k; omega
+  have m_0 : s.nE ≠ e0 := by omega
+  have u_0 : ∀ k, e0 < s.nE + k := by intro k; omega
+  have n_1 : ∀ k, s.nE + k ≠ rv0 := by intro k; omega
+  have m_1 : s.nE ≠ rv0 := by omega
+  have u_1 : ∀ k, rv0 < s.nE + k := by intro k; omega
+  have szE : (s.slaCore e0 rv0 (s.org rv0) (s.fc e0) p d).nE = s.nE + 2 := by unfold St.slaCore; evw [b_0, b_1, d_0_1, d_0_1.symm, n_0, (n_0 _).symm, m_0, m_0.symm, u_0, n_1, (n_1 _).symm, m_1, m_1.symm, u_1]
+  unfold St.slaCore at szE ⊢
+  refine vbound_run s _ hvb (s.nE + 2) szE (by omega) ?_
+  intro i hi
+  simp only [List.mem_cons, List.not_mem_nil, or_false] at hi
+  rcases hi with rfl | rfl | rfl | rfl | rfl | rfl <;> simp only [Instr.argOK] <;> omega
+
 end St
 end Spade
